@@ -35,6 +35,7 @@ class VariationalPINNCondition(SingleModuleCondition):
         
         unreduced_loss = self.error_fn(self.residual_fn({**y.coordinates,
                                                         **x_coordinates,
+                                                        **self.parameter.coordinates,
                                                         **test_space_parameters, 
                                                         **test_fn.coordinates,
                                                         **data}))
